@@ -476,3 +476,199 @@ Proof.
     split; [|exact IH2]. intros [E|Hin]; [|contradiction].
     exact (C20_no_panic_reachK1 cfg s o Hcfg Hr Ho Hko E).
 Qed.
+
+(* ------------------------------------------------------------------ *)
+(* EndBlock: the expiry loop drops no error and cannot panic.
+
+   expire_req cfg s r  =  (for a stored request r of a stored context rc)
+       emit (EvExpire r) (deactivate s1 r)   where, unless rc is in super mode,
+       s1 = let sa := match slash cfg s r with Ok x => x | _ => s end in
+            match refund_fee sa r (c_cons rc) (r_fee q) with Some x => x | None => sa end
+   [expire_req_clean] says that the request and its context are found and that both matches
+   take their first branch.  The new-batch phase (new_one) calls nothing that returns a Res:
+   its only fallible call is the consumer's payment, whose failure is handled (the context
+   is paused), not dropped. *)
+
+Definition expire_req_clean (cfg : Params) (s : State) (r : ReqId) : Prop :=
+  exists q rc,
+    get r (reqs s) = Some q /\ r_active q = true /\ get (rid_ctx r) (ctxs s) = Some rc
+    /\ (c_super rc = false ->
+        exists sa sb, slash cfg s r = Ok sa /\ refund_fee sa r (c_cons rc) (r_fee q) = Some sb).
+
+(* every iteration of  fold_left (expire_req cfg) l s  is clean, each in the state it runs in *)
+Fixpoint expire_loop_clean (cfg : Params) (l : list ReqId) (s : State) : Prop :=
+  match l with
+  | [] => True
+  | r :: t => expire_req_clean cfg s r /\ expire_loop_clean cfg t (expire_req cfg s r)
+  end.
+
+Lemma expire_loop_clean_split cfg l1 r l2 s :
+  expire_loop_clean cfg (l1 ++ r :: l2) s ->
+  expire_req_clean cfg (fold_left (expire_req cfg) l1 s) r.
+Proof.
+  revert s. induction l1 as [|a l1 IH]; intros s H; cbn [app expire_loop_clean fold_left] in *.
+  - apply H.
+  - apply IH, H.
+Qed.
+
+(* what a clean iteration computes: nothing is skipped *)
+Lemma expire_req_clean_eq cfg s r :
+  expire_req_clean cfg s r ->
+  exists q rc, get r (reqs s) = Some q /\ get (rid_ctx r) (ctxs s) = Some rc
+    /\ ((c_super rc = true /\ expire_req cfg s r = emit (EvExpire r) (deactivate s r))
+        \/ (c_super rc = false /\ exists sa sb,
+              slash cfg s r = Ok sa /\ refund_fee sa r (c_cons rc) (r_fee q) = Some sb
+              /\ expire_req cfg s r = emit (EvExpire r) (deactivate sb r))).
+Proof.
+  intros (q & rc & Gq & _ & Grc & Hc). exists q, rc. split; [assumption|]. split; [assumption|].
+  unfold expire_req. rewrite Gq, Grc.
+  destruct (c_super rc) eqn:Es; [left; auto|right]. split; [reflexivity|].
+  destruct (Hc eq_refl) as (sa & sb & E1 & E2). exists sa, sb. rewrite E1, E2. auto.
+Qed.
+
+(* the invariant of the inner loop: the deposit side (BDM), the escrow side (J), the price
+   bound of the available bindings, and the records of the requests still to be processed *)
+Definition loop_inv (cfg : Params) (s : State) (l : list ReqId) : Prop :=
+  BDM cfg s /\ J s /\ avail_bound cfg s
+  /\ forall r, In r l -> exists q rc,
+       get r (reqs s) = Some q /\ r_active q = true /\ get (rid_ctx r) (ctxs s) = Some rc
+       /\ has (c_svc rc, r_prov q) (binds s) = true /\ (c_super rc = true -> r_fee q = 0).
+
+(* a binding may become unavailable inside the loop, never the reverse; prices do not move *)
+Lemma avail_bound_sframe cfg s s' : sframe s s' -> avail_bound cfg s -> avail_bound cfg s'.
+Proof.
+  intros F Hav k b' G Eav.
+  destruct (bsim_get_rev _ _ _ _ (sf_binds _ _ F) G) as (b & Gb & _ & _ & Ha & _).
+  rewrite (pricing_of_same s s') by apply F. eapply Hav; eauto.
+Qed.
+
+Lemma loop_inv_step cfg s a l :
+  0 <= p_slash cfg <= ONE -> NoDup (a :: l) -> loop_inv cfg s (a :: l) ->
+  expire_req_clean cfg s a /\ loop_inv cfg (expire_req cfg s a) l.
+Proof.
+  intros Hsl Hn (HB & HJ & Hav & Hl).
+  inversion Hn as [|? ? Hni Hn']; subst.
+  destruct (Hl a (or_introl eq_refl)) as (q & rc & Gq & Hact & Grc & Hb & Hs).
+  split.
+  - exists q, rc. repeat split; try assumption. intros _. now apply settle_clean.
+  - pose proof (ff_expire_req cfg s a) as [F _].
+    split; [now apply BDM_expire_req|]. split; [eapply expire_req_J; eauto|].
+    split; [now apply (avail_bound_sframe cfg s)|].
+    intros r Hr. destruct (Hl r (or_intror Hr)) as (q' & rc' & Gq' & Hact' & Grc' & Hb' & Hs').
+    exists q', rc'. pose proof (expire_req_core cfg s a) as (_ & C2 & _). rewrite C2.
+    rewrite expire_req_reqs, Gq, Grc. rewrite get_set_neq by (intros ->; contradiction).
+    rewrite (bsim_has _ _ _ (sf_binds _ _ F)). auto.
+Qed.
+
+Lemma loop_inv_clean cfg l s :
+  0 <= p_slash cfg <= ONE -> NoDup l -> loop_inv cfg s l -> expire_loop_clean cfg l s.
+Proof.
+  intros Hsl. revert s. induction l as [|a l IH]; intros s Hn HL; cbn [expire_loop_clean]; [exact I|].
+  destruct (loop_inv_step cfg s a l Hsl Hn HL) as (Hc & HL').
+  split; [exact Hc|]. apply IH; [now inversion Hn|exact HL'].
+Qed.
+
+Lemma Inv_loop_inv cfg s c n : Inv cfg s -> loop_inv cfg s (active_rids s c n).
+Proof.
+  intros HI. split; [now apply Inv_BDM|]. split; [now apply (Inv_J cfg)|].
+  split; [now apply Inv_avail_bound|].
+  assert (Hwr : wf (reqs s)) by apply (inv_wf _ _ HI).
+  intros r Hr. apply In_active_rids in Hr; [|assumption].
+  destruct Hr as (q & G & _ & _ & Ha). exists q.
+  destruct (inv_req _ _ HI) as (R1 & _).
+  destruct (R1 _ _ (get_In _ _ _ G)) as (rc & Grc & _ & _ & _ & _ & _ & _ & Hb & Hs).
+  exists rc. auto.
+Qed.
+
+(* the expiry loop of any batch of any context, started from a state satisfying Inv *)
+Theorem C20_expire_loop_clean cfg s c n :
+  wf_cfg cfg -> Inv cfg s -> expire_loop_clean cfg (active_rids s c n) s.
+Proof.
+  intros Hcfg HI. apply loop_inv_clean.
+  - now apply wf_cfg_slash.
+  - apply NoDup_active_rids, (inv_wf _ _ HI).
+  - now apply Inv_loop_inv.
+Qed.
+
+(* the loop that expire_one runs for c is exactly this one *)
+Lemma expire_one_loop cfg s c :
+  c_bdone (ctx_or_zero s c) = false ->
+  exists s1 rc1,
+    complete_batch (fold_left (expire_req cfg) (active_rids s c (c_counter (ctx_or_zero s c))) s)
+      c (ctx_or_zero s c) = (s1, rc1)
+    /\ expire_one cfg s c =
+       clean_batch
+         (match c_state rc1 with
+          | Completed => del_ctx (put_ctx (del_expq s1 c (height s)) c rc1) c
+          | Running =>
+              if c_rep rc1 && ((c_total rc1 <? 0) || (c_counter rc1 <? c_total rc1))
+              then add_newq (put_ctx (del_expq s1 c (height s)) c rc1) c
+                     (wrap_i64 (height s - c_timeout rc1 + to_i64 (c_freq rc1)))
+              else del_ctx (put_ctx (del_expq s1 c (height s)) c rc1) c
+          | Paused => put_ctx (del_expq s1 c (height s)) c rc1
+          end) c (c_counter rc1).
+Proof.
+  intros Hb. unfold expire_one. rewrite Hb.
+  destruct (complete_batch _ c (ctx_or_zero s c)) as [s1 rc1]. exists s1, rc1. split; reflexivity.
+Qed.
+
+(* EndBlock: in the state in which the k-th due context is processed, the invariant holds
+   and every iteration of its expiry loop is clean *)
+Theorem C20_no_panic_endblock cfg s :
+  wf_cfg cfg -> Inv cfg s -> height s < HEIGHT_BOUND ->
+  forall k c, nth_error (due (expq s) (height s)) k = Some c ->
+    let sk := fold_left (expire_one cfg) (firstn k (due (expq s) (height s))) s in
+    Inv cfg sk
+    /\ In (height sk, c) (expq sk)
+    /\ expire_loop_clean cfg (active_rids sk c (c_counter (ctx_or_zero sk c))) sk.
+Proof.
+  intros Hcfg HI Hh k c Hk. cbv zeta.
+  pose proof (Inv_inside_end_block cfg s Hcfg HI Hh k) as HIk.
+  split; [exact HIk|]. split; [|now apply C20_expire_loop_clean].
+  set (d := due (expq s) (height s)) in *.
+  assert (Hnd : NoDup d) by (apply NoDup_due, (inv_wf _ _ HI)).
+  assert (Esplit : d = firstn k d ++ c :: skipn (S k) d).
+  { clear -Hk. revert k Hk. induction d as [|a d IH]; intros [|k] Hk; cbn in *; try discriminate.
+    - now injection Hk as ->.
+    - f_equal. now apply IH. }
+  assert (Hn1 : NoDup (firstn k d)).
+  { rewrite Esplit in Hnd. now apply NoDup_app_remove_r' in Hnd. }
+  assert (Hl1 : forall c', In c' (firstn k d) -> In (height s, c') (expq s)).
+  { intros c' Hc'. apply In_due. fold d. rewrite Esplit. apply in_or_app. now left. }
+  destruct (fold_expire_phase cfg (firstn k d) s Hcfg HI Hh Hn1 Hl1) as (_ & Eh & _ & Q).
+  rewrite Eh. apply Q. split.
+  - apply In_due. fold d. rewrite Esplit. apply in_or_app. right. now left.
+  - rewrite Esplit in Hnd. apply NoDup_remove_2 in Hnd. intros Hin. apply Hnd.
+    apply in_or_app. now left.
+Qed.
+
+(* the same, read off for one iteration: inside EndBlock slash is called only on a stored,
+   active request of a non-super context, returns Ok, and the refund succeeds *)
+Corollary C20_endblock_slash_ok cfg s :
+  wf_cfg cfg -> Inv cfg s -> height s < HEIGHT_BOUND ->
+  forall k c l1 r l2, nth_error (due (expq s) (height s)) k = Some c ->
+    let sk := fold_left (expire_one cfg) (firstn k (due (expq s) (height s))) s in
+    active_rids sk c (c_counter (ctx_or_zero sk c)) = l1 ++ r :: l2 ->
+    let si := fold_left (expire_req cfg) l1 sk in
+    exists q rc, get r (reqs si) = Some q /\ r_active q = true /\ get (rid_ctx r) (ctxs si) = Some rc
+      /\ (c_super rc = false ->
+          exists sa sb, slash cfg si r = Ok sa /\ refund_fee sa r (c_cons rc) (r_fee q) = Some sb).
+Proof.
+  intros Hcfg HI Hh k c l1 r l2 Hk. cbv zeta. intros El.
+  destruct (C20_no_panic_endblock cfg s Hcfg HI Hh k c Hk) as (_ & _ & Hc). cbv zeta in Hc.
+  rewrite El in Hc. exact (expire_loop_clean_split cfg l1 r l2 _ Hc).
+Qed.
+
+(* slash cannot panic in any intermediate state of any expiry loop, super mode or not *)
+Corollary C20_endblock_slash_no_panic cfg s c n l1 l2 r :
+  wf_cfg cfg -> Inv cfg s -> active_rids s c n = l1 ++ l2 ->
+  slash cfg (fold_left (expire_req cfg) l1 s) r <> Panic.
+Proof.
+  intros Hcfg HI El.
+  assert (HL : loop_inv cfg s (l1 ++ l2)) by (rewrite <- El; now apply Inv_loop_inv).
+  assert (Hn : NoDup (l1 ++ l2)) by (rewrite <- El; apply NoDup_active_rids, (inv_wf _ _ HI)).
+  clear El HI. revert s HL Hn. induction l1 as [|a l1 IH]; intros s HL Hn; cbn [fold_left app] in *.
+  - destruct HL as (HB & _ & Hav & _). apply slash_no_panic; [now apply wf_cfg_slash|assumption|exact Hav].
+  - destruct (loop_inv_step cfg s a (l1 ++ l2) (wf_cfg_slash _ Hcfg) Hn HL) as (_ & HL').
+    apply IH; [exact HL'|now inversion Hn].
+Qed.
